@@ -517,6 +517,7 @@ func (a *act) assumeEqVals(cond string, x, y Val) {
 func (fx *FX) unknownCall(what string, st *State) {
 	fx.notes = append(fx.notes, "unknown call: "+what)
 	fx.unknown = append(fx.unknown, what)
+	fx.unknownSeen = true
 	// havoc every state variable touched so far
 	for _, name := range sortedKeys(fx.svSort) {
 		if name == "$now" {
